@@ -339,6 +339,24 @@ macro_rules! borrow_leaves {
             chumsky::primitive::any_ref().map(|t: &Self::T| Val::T(TokK::to_char(*t))).fin()
         }
         fn select_ref<C: Cfg<'a, Self>>(set: &'static str, st: bool) -> BP<'a, Self, C> {
+            if set.ends_with('!') {
+                // `select_ref!` with overlapping arms told apart by guards only
+                let mut ks = set.chars().filter(|c| *c != '!');
+                let (k0, k1, k2) = (ks.next(), ks.next(), ks.next());
+                let mk = move |t: &Self::T, e: &mut chumsky::input::MapExtra<'a, '_, Self, Ex<'a, Self, C>>| {
+                    let v = Val::Tag(TokK::to_char(*t));
+                    match (st, e.state().obs()) {
+                        (true, Some((n, h))) => Val::Q(n, h, Box::new(v)),
+                        _ => v,
+                    }
+                };
+                return chumsky::select_ref! {
+                    t = e if Some(TokK::to_char(*t)) == k0 => mk(t, e),
+                    t = e if Some(TokK::to_char(*t)) == k1 => mk(t, e),
+                    t = e if Some(TokK::to_char(*t)) == k2 => mk(t, e),
+                }
+                .fin();
+            }
             chumsky::primitive::select_ref(move |t: &Self::T, e: &mut chumsky::input::MapExtra<'a, '_, Self, Ex<'a, Self, C>>| {
                 let c = TokK::to_char(*t);
                 if set.contains(c) {
@@ -932,6 +950,27 @@ fn build0<'a, I: InK<'a>, C: Cfg<'a, I>>(g: &G, pr: Probes) -> BP<'a, I, C> {
         SelectRef(s) => I::select_ref::<C>(s, pr.state),
         OneOf(s) => one_of(set::<I>(s)).map(|t: I::T| Val::T(t.to_char())).fin(),
         NoneOf(s) => none_of(set::<I>(s)).map(|t: I::T| Val::T(t.to_char())).fin(),
+        Select(s) if s.ends_with('!') => {
+            // the same selector written with the `select!` macro: overlapping arms (every pattern matches every token)
+            // told apart by their guards only, so a token is accepted by the FIRST arm whose guard holds
+            let s: &'static str = s;
+            let st = pr.state;
+            let mut ks = s.chars().filter(|c| *c != '!');
+            let (k0, k1, k2) = (ks.next().map(tk::<I>), ks.next().map(tk::<I>), ks.next().map(tk::<I>));
+            let mk = move |t: I::T, e: &mut chumsky::input::MapExtra<'a, '_, I, Ex<'a, I, C>>| {
+                let v = Val::Tag(t.to_char());
+                match (st, e.state().obs()) {
+                    (true, Some((n, h))) => Val::Q(n, h, bx(v)),
+                    _ => v,
+                }
+            };
+            chumsky::select! {
+                t = e if Some(t) == k0 => mk(t, e),
+                t = e if Some(t) == k1 => mk(t, e),
+                t = e if Some(t) == k2 => mk(t, e),
+            }
+            .fin()
+        }
         Select(s) => {
             let s: &'static str = s;
             let st = pr.state;
@@ -1150,7 +1189,7 @@ fn build0<'a, I: InK<'a>, C: Cfg<'a, I>>(g: &G, pr: Probes) -> BP<'a, I, C> {
             .fin(),
         NestedDelims(a) => build::<I, C>(a, pr)
             .recover_with(via_parser(
-                nested_delimiters(tk::<I>('('), tk::<I>(')'), [(tk::<I>('['), tk::<I>(']'))], |s: I::Span| { let (a, b) = s.pair(); Val::Sp(a, b) })
+                nested_delimiters(tk::<I>('('), tk::<I>(')'), [(tk::<I>('['), tk::<I>(']')), (tk::<I>('{'), tk::<I>('}'))], |s: I::Span| { let (a, b) = s.pair(); Val::Sp(a, b) })
                     .map(|v| Val::M(bx(v))),
             ))
             .fin(),
